@@ -55,6 +55,20 @@ pub fn deep_code_cases(id: &str, tier: Tier) -> Vec<SeqCase> {
     if id == "C02" || id == "C09" {
         v.push(mk(TreeKind::Hqwt256, ElemTy::U8, 1_318_810, 4, Arr::Shuffled, 2));
         v.push(mk(TreeKind::Hqwt512Pfs, ElemTy::U32, 1_400_001, 4, Arr::Runs(6), 3));
+        // two chains below the root: 13 levels (26-bit codes that differ in their first digit)
+        // from n = 1 690 546, 14 levels from n = 4 711 074
+        let two = |kind: TreeKind, n: usize, seed: u64| SeqCase {
+            kind,
+            ty: ElemTy::U8,
+            how: How::New,
+            content: Content::Recipe(Recipe { n, alphabet: (0..120).collect(), profile: Profile::DeepChains(2), arr: Arr::Shuffled, seed }),
+            tie_seed: seed,
+            plan_seed: seed,
+        };
+        v.push(two(TreeKind::Hqwt256, 1_700_000, 7));
+        if tier == Tier::Thorough {
+            v.push(two(TreeKind::Hqwt512, 4_720_000, 8));
+        }
     }
     if id == "C03" {
         // 24 binary levels in the quick tier, the full 32 in the thorough tier
